@@ -1352,6 +1352,8 @@ def run(chk: core.Check):
                              "svd-generic", "svd-split", "svd-unnormalised-weights", "trim-fires", "threshold-bites-fast",
                              "threshold-bites-generic", "dm-coherences", "dm-nonreal-phase", "sv-history",
                              "budget-trims-member", "default-precision-superposed-multigroup", "budget-discriminating",
+                             "gen:sv-history", "gen:dm-nonreal-phase", "gen:default-precision-superposed-multigroup",
+                             "gen:budget-discriminating", "gen:budget-trims-member", "gen:threshold-bites-generic",
                              "pa-zero", "pa-nonzero", "rejected"]
     rng = chk.rng
     n_lean = chk.pick(4, 8)
@@ -1360,7 +1362,11 @@ def run(chk: core.Check):
     try:
         for case in load_corpus():
             handle(chk, case)
-        plan = chk.pick({"bs": 110, "sv": 90, "svd": 80, "svd-default": 40, "dm": 40, "bad": 30},
+        # shapes that the stored cases hit by construction must ALSO come out of the random generator
+        gen_shapes = ["sv-history", "dm-nonreal-phase", "default-precision-superposed-multigroup", "budget-discriminating",
+                      "budget-trims-member", "threshold-bites-generic"]
+        before = {b: chk.branches.get(b, 0) for b in gen_shapes}
+        plan = chk.pick({"bs": 110, "sv": 90, "svd": 80, "svd-default": 70, "dm": 40, "bad": 30},
                         {"bs": 1500, "sv": 1300, "svd": 1400, "svd-default": 600, "dm": 600, "bad": 300})
         cases = []
         for name, cnt in plan.items():
@@ -1400,6 +1406,9 @@ def run(chk: core.Check):
             results = pool.map(_work, [(c, r, chk.thorough) for c, r in zip(cases, reps)], chunksize=8)
         for c, r, done in zip(cases, reps, results):
             handle(chk, c, r, None, done)
+        for b in gen_shapes:
+            if chk.branches.get(b, 0) > before[b]:
+                chk.branch("gen:" + b, chk.branches.get(b, 0) - before[b])
         # one defect, one report: a disagreement that a direct oracle confirmed on some case is reported as that
         # confirmed violation (first), not additionally as an unconfirmed model/code difference of the same signature
         confirmed = {f[1] for f in chk.failures if f[0] == "violation"}
